@@ -27,10 +27,12 @@ from ..engine import (
     kwarg,
     mutation_sites,
     norm,
+    parent as _parent,
+    qualname_of,
     stmt_of,
     walk_no_nested,
 )
-from ..normal import nfunc, normalize
+from ..normal import clone, nfunc, normalize
 from ..report import Report
 from . import _orch
 
@@ -265,12 +267,34 @@ def _loop_plan(fn: ast.AST, loop: ast.For) -> Optional[Tuple[ast.AST, str, str]]
     """(sequence, index local, item local) when *loop* visits every element of a sequence once, in order, with its
     0-based position: ``for i, v in enumerate(seq)`` or ``for i in range(len(seq)): v = seq[i]``."""
     it = loop.iter
-    if not (isinstance(it, ast.Call) and len(it.args) == 1 and not it.keywords):
+    if not isinstance(it, ast.Call):
         return None
-    if call_name(it) == "enumerate":
-        tg = loop.target
-        if isinstance(tg, ast.Tuple) and len(tg.elts) == 2 and all(isinstance(x, ast.Name) for x in tg.elts):
+    tg = loop.target
+    pair = isinstance(tg, ast.Tuple) and len(tg.elts) == 2 and all(isinstance(x, ast.Name) for x in tg.elts)
+
+    def zero(e: ast.AST) -> bool:
+        return isinstance(e, ast.Constant) and type(e.value) is int and e.value == 0
+
+    def len_of(e: ast.AST) -> Optional[ast.AST]:  # seq when e is (a local holding) len(seq)
+        lens = _origins(fn, e, keep_none=True)
+        if lens and all(isinstance(v, ast.Call) and call_name(v) == "len" and len(v.args) == 1 and not v.keywords for v in lens) and all(_same(v.args[0], lens[0].args[0]) for v in lens):
+            return lens[0].args[0]
+        return None
+    if call_name(it) == "enumerate":  # enumerate(seq) / enumerate(seq, 0) / enumerate(seq, start=0)
+        start = it.args[1] if len(it.args) == 2 else kwarg(it, "start")
+        if pair and 1 <= len(it.args) <= 2 and all(k.arg == "start" for k in it.keywords) and (start is None or zero(start)):
             return it.args[0], tg.elts[0].id, tg.elts[1].id
+        return None
+    if call_name(it) == "zip" and len(it.args) == 2 and not it.keywords:
+        # zip(range(len(seq)), seq) / zip(itertools.count(), seq): position and element side by side
+        pos, seq = it.args
+        counts = isinstance(pos, ast.Call) and (
+            (call_name(pos) == "range" and not pos.keywords and ((len(pos.args) == 1 and _same(len_of(pos.args[0]), seq)) or (len(pos.args) == 2 and zero(pos.args[0]) and _same(len_of(pos.args[1]), seq))))
+            or (call_name(pos) in ("itertools.count", "count") and not pos.keywords and (not pos.args or (len(pos.args) == 1 and zero(pos.args[0])))))
+        if pair and counts:
+            return seq, tg.elts[0].id, tg.elts[1].id
+        return None
+    if not (len(it.args) == 1 and not it.keywords):
         return None
     if call_name(it) == "range" and isinstance(loop.target, ast.Name):
         i = loop.target.id
@@ -354,6 +378,232 @@ def _value_cases(g: CFG, fn: ast.AST, e: Optional[ast.AST], at: int, params: Set
 
 
 # ---------------------------------------------------------------------------------------------------------
+# object flow: which function a call runs on an object (receiver or argument), what it stores into the object's
+# attributes and which attribute it reports under which mapping key - whatever the function is (method, module-level
+# function taking the object, a wrapper delegating to either)
+# ---------------------------------------------------------------------------------------------------------
+
+def _bind_args(fn: ast.AST, call: ast.Call, skip_first: bool) -> Optional[Dict[str, ast.AST]]:
+    """parameter name -> argument expression (defaults filled in); None when the call cannot be bound statically."""
+    if any(isinstance(a, ast.Starred) for a in call.args) or any(k.arg is None for k in call.keywords):
+        return None
+    a = fn.args
+    if a.vararg or a.kwarg:
+        return None
+    allpos = list(a.posonlyargs + a.args)
+    pos = allpos[1:] if skip_first else allpos
+    if skip_first and not allpos:
+        return None
+    if len(call.args) > len(pos):
+        return None
+    out: Dict[str, ast.AST] = {p.arg: v for p, v in zip(pos, call.args)}
+    names = {p.arg for p in pos} | {p.arg for p in a.kwonlyargs}
+    for k in call.keywords:
+        if k.arg not in names or k.arg in out:
+            return None
+        out[k.arg] = k.value
+    defaults = dict(zip([p.arg for p in allpos][len(allpos) - len(a.defaults):], a.defaults))
+    for p, d in zip(a.kwonlyargs, a.kw_defaults):
+        if d is not None:
+            defaults[p.arg] = d
+    for p in pos + list(a.kwonlyargs):
+        if p.arg not in out:
+            if p.arg not in defaults:
+                return None
+            out[p.arg] = defaults[p.arg]
+    return out
+
+
+def _is_method(fn: ast.AST) -> bool:
+    return isinstance(_parent(getattr(fn, "_normal_of", fn)), ast.ClassDef) and not any(dotted_name(d) in ("staticmethod", "classmethod") for d in fn.decorator_list)
+
+
+def _callee_on(repo: Repo, mod, call: ast.Call, is_obj: Callable[[ast.AST], bool], cls) -> Optional[Tuple[object, ast.AST, str, Dict[str, ast.AST]]]:
+    """The repo function *call* runs on the object recognised by *is_obj* - as the receiver of a method of *cls*
+    (module, ClassDef) or as an argument of a resolvable function: (module, def, parameter holding the object,
+    parameter -> argument of the call)."""
+    f = call.func
+    if isinstance(f, ast.Attribute) and is_obj(f.value):
+        if cls is None:
+            return None
+        r = repo.method(cls[0], cls[1], f.attr)
+        if r is None or not isinstance(r[1], FuncNode) or not _is_method(r[1]):
+            return None
+        b = _bind_args(r[1], call, skip_first=True)
+        pos = r[1].args.posonlyargs + r[1].args.args
+        return (r[0], r[1], pos[0].arg, b) if b is not None and pos else None
+    if not any(is_obj(x) for x in list(call.args) + [k.value for k in call.keywords]):
+        return None
+    try:
+        targets = repo.resolve_call(mod, call)
+    except Exception:
+        targets = []
+    if len(targets) != 1 or not isinstance(targets[0][1], FuncNode):
+        return None
+    m, fn = targets[0]
+    # `self.meth(obj)` / `Klass(obj)`: the first parameter is bound to the receiver / the new instance
+    called = f.attr if isinstance(f, ast.Attribute) else f.id if isinstance(f, ast.Name) else None
+    in_class = isinstance(_parent(fn), ast.ClassDef) and not any(dotted_name(d) == "staticmethod" for d in fn.decorator_list)
+    bound = in_class and ((fn.name == "__init__" and called != "__init__") or (isinstance(f, ast.Attribute) and isinstance(f.value, ast.Name) and f.value.id in ("self", "cls")))
+    b = _bind_args(fn, call, skip_first=bound)
+    if b is None:
+        return None
+    holders = [p for p, v in b.items() if is_obj(v)]
+    return (m, fn, holders[0], b) if len(holders) == 1 else None
+
+
+def _translate(v: ast.AST, binding: Dict[str, ast.AST], tag: str) -> ast.AST:
+    """*v* (an expression of a callee) in the caller's terms: parameters replaced by the arguments of the call;
+    any other local of the callee is renamed so that it cannot be mistaken for a local of the caller."""
+    class T(ast.NodeTransformer):
+        def visit_Name(self, n):
+            if n.id in binding:
+                return clone(binding[n.id])
+            return ast.copy_location(ast.Name(id=f"{n.id}@{tag}", ctx=n.ctx), n)
+    return T().visit(clone(v))
+
+
+def _flat_store_targets(st: ast.AST) -> List[ast.AST]:
+    tg = list(st.targets) if isinstance(st, ast.Assign) else [st.target] if isinstance(st, (ast.AnnAssign, ast.AugAssign)) else []
+    out: List[ast.AST] = []
+    while tg:
+        t = tg.pop()
+        if isinstance(t, (ast.Tuple, ast.List)):
+            tg.extend(t.elts)
+        else:
+            out.append(t)
+    return out
+
+
+def _object_stores(repo: Repo, mod, fn: ast.AST, objp: str, cls, depth: int = 3) -> Dict[str, List[ast.AST]]:
+    """attribute -> every value *fn* stores into ``<objp>.attribute`` (in terms of *fn*'s parameters), on the
+    normal form of *fn* (private helpers inlined); calls that hand the object on to another repo function (a public
+    helper, another method) are followed.  A store that is not a plain binding is reported as the statement itself."""
+    nf = normalize(repo, mod, fn, copyprop="all")
+    out: Dict[str, List[ast.AST]] = {}
+    is_obj = lambda x: isinstance(x, ast.Name) and x.id == objp
+    for n in walk_no_nested(nf):
+        if isinstance(n, (ast.Assign, ast.AnnAssign, ast.AugAssign)) and getattr(n, "value", None) is not None:
+            for t in _flat_store_targets(n):
+                if isinstance(t, ast.Attribute) and is_obj(t.value):
+                    vals = _value_for(n, f"{objp}.{t.attr}") if not isinstance(n, ast.AugAssign) else []
+                    out.setdefault(t.attr, []).extend([o for v in vals for o in _origins(nf, v, keep_none=True)] or [n])
+        elif isinstance(n, ast.Call) and depth > 0:
+            if call_name(n) == "setattr" and len(n.args) == 3 and is_obj(n.args[0]) and isinstance(n.args[1], ast.Constant):
+                out.setdefault(n.args[1].value, []).extend(_origins(nf, n.args[2], keep_none=True))
+                continue
+            hit = _callee_on(repo, mod, n, is_obj, cls)
+            if hit is not None and hit[1] is not fn:
+                for attr, vals in _object_stores(repo, hit[0], hit[1], hit[2], cls, depth - 1).items():
+                    out.setdefault(attr, []).extend(o for v in vals for o in _origins(nf, _translate(v, hit[3], hit[1].name), keep_none=True))
+    return out
+
+
+def _mapping_items(fn: ast.AST, e: Optional[ast.AST]) -> Optional[Dict[object, List[ast.AST]]]:
+    """constant key -> value expressions of the mapping *e* evaluates to in *fn*: dict literals (with ``**`` spreads
+    of literals), ``dict(k=v)``, conditional expressions, locals with their ``m[key] = v`` / ``m.update(...)`` stores.
+    None when some part of it is not understood."""
+    out: Dict[object, List[ast.AST]] = {}
+    seen: Set[str] = set()
+
+    def rec(x: ast.AST) -> bool:
+        if isinstance(x, ast.IfExp):
+            return rec(x.body) and rec(x.orelse)
+        if isinstance(x, ast.Dict):
+            for k, v in zip(x.keys, x.values):
+                if k is None:
+                    if not rec(v):
+                        return False
+                elif isinstance(k, ast.Constant):
+                    out.setdefault(k.value, []).append(v)
+                else:
+                    return False
+            return True
+        if isinstance(x, ast.Call) and call_name(x) in ("dict", "OrderedDict", "collections.OrderedDict"):
+            if len(x.args) > 1 or (x.args and not rec(x.args[0])):
+                return False
+            for k in x.keywords:
+                if k.arg is None:
+                    if not rec(k.value):
+                        return False
+                else:
+                    out.setdefault(k.arg, []).append(k.value)
+            return True
+        if isinstance(x, ast.Name):
+            vals = _assigned(fn, x.id)
+            if not vals:
+                return False
+            if x.id in seen:
+                return True
+            seen.add(x.id)
+            if not all(rec(v) for v in vals):
+                return False
+            for n in walk_no_nested(fn):
+                if isinstance(n, (ast.Assign, ast.AnnAssign)) and n.value is not None:
+                    for t in _flat_store_targets(n):
+                        if isinstance(t, ast.Subscript) and isinstance(t.value, ast.Name) and t.value.id == x.id:
+                            if not isinstance(t.slice, ast.Constant) or isinstance(n, ast.Assign) and (len(n.targets) != 1 or n.targets[0] is not t):
+                                return False
+                            out.setdefault(t.slice.value, []).append(n.value)
+                elif isinstance(n, ast.Call) and isinstance(n.func, ast.Attribute) and isinstance(n.func.value, ast.Name) and n.func.value.id == x.id and n.func.attr in ("update", "setdefault", "pop", "clear", "popitem", "__setitem__"):
+                    if n.func.attr != "update" or len(n.args) > 1 or (n.args and not rec(n.args[0])):
+                        return False
+                    for k in n.keywords:
+                        if k.arg is None:
+                            return False
+                        out.setdefault(k.arg, []).append(k.value)
+            return True
+        return False
+
+    return out if e is not None and rec(e) else None
+
+
+def _object_reports(repo: Repo, mod, fn: ast.AST, objp: str, cls, depth: int = 3) -> Optional[Dict[object, List[ast.AST]]]:
+    """mapping key -> value expressions (in terms of *fn*'s parameters) of the mapping *fn* returns, on its normal
+    form; a function that returns what another repo function computes from the object is followed.  None when a
+    return is not understood."""
+    nf = normalize(repo, mod, fn, copyprop="all", loops=True)
+    out: Dict[object, List[ast.AST]] = {}
+    rets = [n for n in walk_no_nested(nf) if isinstance(n, ast.Return)]
+    if not rets:
+        return None
+    is_obj = lambda x: isinstance(x, ast.Name) and x.id == objp
+    for r in rets:
+        if r.value is None:
+            return None
+        for o in _origins(nf, r.value, keep_none=True) if not (isinstance(r.value, ast.Name) and _mapping_items(nf, r.value) is not None) else [r.value]:
+            items = _mapping_items(nf, o)
+            if items is None and isinstance(o, ast.Call) and depth > 0:
+                hit = _callee_on(repo, mod, o, is_obj, cls)
+                sub = _object_reports(repo, hit[0], hit[1], hit[2], cls, depth - 1) if hit is not None and hit[1] is not fn else None
+                items = {k: [_translate(v, hit[3], hit[1].name) for v in vs] for k, vs in sub.items()} if sub is not None else None
+            if items is None:
+                return None
+            for k, vs in items.items():
+                out.setdefault(k, []).extend(x for v in vs for x in _origins(nf, v, keep_none=True))
+    return out
+
+
+def _reachable_in_module(repo: Repo, rel: str, entry: str) -> List[ast.AST]:
+    """Definitions of module *rel* (methods, module-level functions, closures) reachable through calls from its public
+    entry point *entry* - where the code of the entry point may have been moved to."""
+    mod = repo.module(rel)
+    seen = repo.call_graph_closure([(mod, repo.func(rel, entry))], stop=lambda m, n: m is not mod)
+    return [n for m, n, _p in seen.values() if m is mod]
+
+
+def _by_role(fns: Iterable[ast.AST], pred: Callable[[ast.AST], bool], what: str) -> ast.AST:
+    hits = [f for f in fns if pred(f)]
+    if len(hits) != 1:
+        raise AnalysisError(f"{what}: expected one function in that role, found {[qualname_of(h) for h in hits]}")
+    return hits[0]
+
+
+def _dumps_calls(fn: ast.AST) -> List[ast.Call]:
+    return [c for c in calls_in(fn) if call_name(c) == "json.dumps" and c.args]
+
+
+# ---------------------------------------------------------------------------------------------------------
 
 def run(repo: Repo, R: Report) -> None:
     R.assume(
@@ -375,21 +625,49 @@ def run(repo: Repo, R: Report) -> None:
 
 def spec_id_rules(repo: Repo, R: Report, run_nf: ast.AST) -> None:
     r_sid = R.rule("C09-D1-one-spec-id", "inspection and runtime normalise the run-space block identically (same normal form, same json.dumps options, same prefix) and hash the same representation (asdict of the parsed block, the one that is expanded into the plan)", 5)
-    rscf = repo.func(IDENT, "RunSpaceIdentityService._rscf_v1")
-    inner = next((n for n in ast.walk(rscf) if isinstance(n, FuncNode) and n is not rscf), None)
-    twin = repo.func(BUILDER, "_normalize_run_space")
+    ident_mod, builder_mod = repo.module(IDENT), repo.module(BUILDER)
+    # runtime: of the functions RunSpaceIdentityService.compute reaches, the one that serialises its (normalised)
+    # argument - not the one that serialises the {spec_id, inputs} payload of the inputs id
+    ident_fns = _reachable_in_module(repo, IDENT, "RunSpaceIdentityService.compute")
+
+    def dumps_spec_payload(fn: ast.AST) -> bool:
+        return any(isinstance(o, ast.Dict) and any(isinstance(k, ast.Constant) and k.value == "spec_id" for k in o.keys) for c in _dumps_calls(fn) for o in _origins(fn, c.args[0]))
+    rscf = _by_role(ident_fns, lambda f: bool(_dumps_calls(f)) and not dumps_spec_payload(f), "run_space_identity: serialiser of the run-space block (RSCF)")
+    rscf_nf = normalize(repo, ident_mod, rscf)
+
+    def normaliser_of(mod, nf: ast.AST, what: str) -> Tuple[Optional[ast.Call], Optional[ast.AST]]:
+        """(call, def) of the function applied to the value that *nf* hands to json.dumps."""
+        hits = []
+        for c in _dumps_calls(nf):
+            for o in _origins(nf, c.args[0]):
+                if isinstance(o, ast.Call):
+                    for _m, f in repo.resolve_call(mod, o):
+                        if isinstance(f, FuncNode):
+                            hits.append((o, f))
+        if len(hits) > 1:
+            raise AnalysisError(f"{what}: {len(hits)} candidate normalisers applied before json.dumps")
+        return hits[0] if hits else (None, None)
+    _nc, inner = normaliser_of(ident_mod, rscf_nf, "run_space_identity RSCF serialiser")
     if inner is None:
-        raise AnalysisError("_rscf_v1: inner normaliser not found")
-    nf_a = alpha_normal_form(inner, {"Mapping": "dict"})
-    nf_b = alpha_normal_form(twin, {"Mapping": "dict"})
-    same_nf = nf_a == nf_b
-    if not same_nf:
+        raise AnalysisError(f"{qualname_of(rscf)}: normaliser applied before json.dumps not found")
+    # inspection: the function whose result build_inspection_payload publishes as identity.run_space.spec_id
+    bip = nfunc(repo, BUILDER, "build_inspection_payload", inline=False)  # helpers kept: the helper call is what is looked for
+    sid_calls = [o for d in ast.walk(bip) if isinstance(d, ast.Dict) for k, v in zip(d.keys, d.values) if isinstance(k, ast.Constant) and k.value == "spec_id"
+                 for o in _origins(bip, v) if isinstance(o, ast.Call)]
+    csid_hits = {id(f): f for c in sid_calls for _m, f in repo.resolve_call(builder_mod, c) if _m is builder_mod and isinstance(f, FuncNode)}
+    if len(csid_hits) != 1:
+        raise AnalysisError(f"build_inspection_payload: expected one function computing identity.run_space.spec_id, found {len(csid_hits)}")
+    csid = next(iter(csid_hits.values()))
+    csid_raw_nf = normalize(repo, builder_mod, csid, copyprop="all")
+    norm_call, twin = normaliser_of(builder_mod, csid_raw_nf, "inspection spec id")
+    same_nf = twin is not None and alpha_normal_form(inner, {"Mapping": "dict"}) == alpha_normal_form(twin, {"Mapping": "dict"})
+    if not same_nf and twin is not None:
         # spelled differently: compare the value each one returns, on the normal forms (accumulate-loops as
         # comprehensions, named sub-expressions substituted, early returns / if-else / negated guards unified)
-        va = returned_value_form(normalize(repo, repo.module(IDENT), inner, loops=True, copyprop="all"), {"Mapping": "dict"})
-        vb = returned_value_form(normalize(repo, repo.module(BUILDER), twin, loops=True, copyprop="all"), {"Mapping": "dict"})
+        va = returned_value_form(normalize(repo, ident_mod, inner, loops=True, copyprop="all"), {"Mapping": "dict"})
+        vb = returned_value_form(normalize(repo, builder_mod, twin, loops=True, copyprop="all"), {"Mapping": "dict"})
         same_nf = va is not None and va == vb
-    R.check(same_nf, r_sid, IDENT, "RunSpaceIdentityService._rscf_v1.normalize", "normal form equals inspection.builder._normalize_run_space",
+    R.check(same_nf, r_sid, IDENT, qualname_of(getattr(inner, "_normal_of", inner)) if not isinstance(_parent(inner), FuncNode) else f"{qualname_of(rscf)}.{inner.name}", f"normal form equals the normaliser of inspection.builder.{qualname_of(csid)}",
             "the runtime and the inspection normaliser of the run-space block differ: `inspect` prints a different spec id than the trace carries (and/or plans that differ are identified)", inner.lineno)
 
     # json.dumps options
@@ -398,10 +676,9 @@ def spec_id_rules(repo: Repo, R: Report, run_nf: ast.AST) -> None:
             if call_name(c) == "json.dumps":
                 return {k.arg: ast.unparse(k.value) for k in c.keywords if k.arg}
         return None
-    csid = repo.func(BUILDER, "_compute_run_space_spec_id")
-    csid_nf = nfunc(repo, BUILDER, "_compute_run_space_spec_id", keep=("_normalize_run_space", "_parse_run_space_block"), copyprop="all")
-    oa, ob = dumps_opts(nfunc(repo, IDENT, "RunSpaceIdentityService._rscf_v1")), dumps_opts(csid_nf)
-    R.check(oa is not None and oa == ob, r_sid, BUILDER, "_compute_run_space_spec_id", f"json.dumps options {ob}", f"serialisation options differ between runtime {oa} and inspection {ob}", csid.lineno)
+    csid_nf, csid_q = csid_raw_nf, qualname_of(csid)
+    oa, ob = dumps_opts(rscf_nf), dumps_opts(csid_nf)
+    R.check(oa is not None and oa == ob, r_sid, BUILDER, csid_q, f"json.dumps options {ob}", f"serialisation options differ between runtime {oa} and inspection {ob}", csid.lineno)
 
     # prefix bytes (module constants are substituted by the normal form)
     def byte_consts(fn) -> Set[bytes]:
@@ -409,7 +686,7 @@ def spec_id_rules(repo: Repo, R: Report, run_nf: ast.AST) -> None:
     comp_nf = nfunc(repo, IDENT, "RunSpaceIdentityService.compute")
     pa = {b for b in byte_consts(comp_nf) if b.startswith(b"semantiva:rscf")}
     pb = {b for b in byte_consts(csid_nf) if b.startswith(b"semantiva:")}
-    R.check(pa == pb and len(pa) == 1, r_sid, BUILDER, "_compute_run_space_spec_id", f"hash prefix {sorted(pb)}", f"hash prefixes differ: runtime {sorted(pa)} vs inspection {sorted(pb)}", csid.lineno)
+    R.check(pa == pb and len(pa) == 1, r_sid, BUILDER, csid_q, f"hash prefix {sorted(pb)}", f"hash prefixes differ: runtime {sorted(pa)} vs inspection {sorted(pb)}", csid.lineno)
 
     # argument provenance: the CLI hashes asdict(<parsed run space>), the same object it expands into the plan
     comp_calls = [c for c in calls_in(run_nf) if call_attr(c) == "compute" and isinstance(c.func, ast.Attribute) and _ctor_of(run_nf, c.func.value, "RunSpaceIdentityService")]
@@ -426,11 +703,18 @@ def spec_id_rules(repo: Repo, R: Report, run_nf: ast.AST) -> None:
     parsed = lambda e: isinstance(e, ast.Attribute) and e.attr == "run_space" and any(isinstance(v, ast.Call) and call_attr(v) == "parse_pipeline_config" for v in _origins(run_nf, e.value))
     cli_parsed = bool(vals) and len(hashed) == len(vals) and all(parsed(h) for hs in hashed for h in _origins(run_nf, hs)) and len(planned_from) == 1 and all(_same(h, planned_from[0]) for hs in hashed for h in _origins(run_nf, hs))
     R.check(cli_parsed, r_sid, CLI, "_run", "identity_service.compute(asdict(pipeline_cfg.run_space))", "the CLI does not hash asdict(parsed run space) of the very block it expands into the plan", cc.lineno)
-    norm_call = next((c for c in calls_in(csid_nf) if call_attr(c) == "_normalize_run_space"), None)
+    # ... and inspection normalises asdict(<the block parsed by the parser parse_pipeline_config uses>)
+    ppc = repo.resolve_name(repo.module(CLI), ast.Name(id="parse_pipeline_config", ctx=ast.Load()))
+    if ppc is None or not isinstance(ppc[1], FuncNode):
+        raise AnalysisError("cli: parse_pipeline_config not resolvable")
+    parser_fns = {id(n) for _m, n, _p in repo.call_graph_closure([ppc]).values()}
+
+    def parses_block(o: ast.AST) -> bool:
+        return isinstance(o, ast.Call) and any(id(f) in parser_fns for _m, f in repo.resolve_call(builder_mod, o))
     insp_vals = _origins(csid_nf, norm_call.args[0]) if norm_call is not None and norm_call.args else []
     insp_parsed = bool(insp_vals) and all(
-        isinstance(v, ast.Call) and call_attr(v) == "asdict" and len(v.args) == 1 and any(isinstance(o, ast.Call) and call_attr(o) == "_parse_run_space_block" for o in _origins(csid_nf, v.args[0])) for v in insp_vals)
-    R.check(bool(insp_parsed), r_sid, BUILDER, "_compute_run_space_spec_id", "normalises asdict(_parse_run_space_block(block))", "inspection hashes a different representation of the run-space block than the runtime (raw mapping vs parsed configuration with defaults): spec ids never agree", csid.lineno)
+        isinstance(v, ast.Call) and call_attr(v) == "asdict" and len(v.args) == 1 and any(parses_block(o) for o in _origins(csid_nf, v.args[0])) for v in insp_vals)
+    R.check(bool(insp_parsed), r_sid, BUILDER, csid_q, "normalises asdict(<run-space block parsed as parse_pipeline_config parses it>)", "inspection hashes a different representation of the run-space block than the runtime (raw mapping vs parsed configuration with defaults): spec ids never agree", csid.lineno)
 
 
 # ----------------------------------------------------------------------------------------- D2 launch bracket
@@ -736,15 +1020,8 @@ def freshness_rules(repo: Repo, R: Report, run_nf: ast.AST, g: CFG, loop: ast.Fo
     late_muts = [m for m, _r in mutation_sites(loop, {ctx_name}) if any(g.nodes[i].ast is not None and any(x is m for x in ast.walk(g.nodes[i].ast)) for i in later if i not in {n.id for n in md_nodes})]
     R.check(not late_muts, r_fr, CLI, "_run", "run context complete before it is recorded", f"`{norm(late_muts[0])[:60]}` changes the run context after its copy was taken for pipeline_start" if late_muts else "", md[0].lineno)
     # launch FK: a TraceContext filled from the created launch
+    # (decided below, once execute() has told which attributes of that object reach pipeline_start)
     tc = mk.get("trace_context")
-    tc_ok = isinstance(tc, ast.Name) and _ctor_of(run_nf, tc, "TraceContext")
-    fk_calls = [c for c in calls_in(run_nf) if call_attr(c) == "set_run_space_fk" and isinstance(c.func, ast.Attribute) and _same(c.func.value, tc)] if tc_ok else []
-    tc_ok = tc_ok and len(fk_calls) == 1 and is_launch_attr(kwarg(fk_calls[0], "launch_id"), "id") and is_launch_attr(kwarg(fk_calls[0], "attempt"), "attempt")
-    if tc_ok:
-        fk_node = next((n for n in g.nodes if n.kind == "stmt" and n.ast is not None and any(x is fk_calls[0] for x in ast.walk(n.ast))), None)
-        ctor_nodes = [n for n in g.nodes if n.kind == "stmt" and isinstance(n.ast, (ast.Assign, ast.AnnAssign)) and isinstance(n.ast.value, ast.Call) and (call_name(n.ast.value) or "").split(".")[-1] == "TraceContext"]
-        tc_ok = fk_node is not None and bool(ctor_nodes) and not g.must_pass([t for c in ctor_nodes for t, lab in g.succ[c.id] if lab == "n" and t != fk_node.id], list(heads), lambda n: n.id == fk_node.id)
-    R.check(bool(tc_ok), r_fr, CLI, "_run", "metadata.trace_context = TraceContext with set_run_space_fk(launch.id, launch.attempt)", "launch foreign key (id and attempt of the created launch) not attached to the run metadata", md[0].lineno)
     # staged for every run before process, and what is staged is that mapping
     md_names = {t.id for n in md_assign for t in (n.targets if isinstance(n, ast.Assign) else [n.target]) if isinstance(t, ast.Name)}
 
@@ -822,51 +1099,106 @@ def freshness_rules(repo: Repo, R: Report, run_nf: ast.AST, g: CFG, loop: ast.Fo
     def from_run_metadata(m: ast.AST) -> bool:
         return "run_metadata" in _slice_names(ex, m)
 
-    def keyed_from(e: ast.AST, key: str, via_fk: bool) -> bool:
-        outs = _origins(ex, e)
-        if not outs:
-            return False
-        for o in outs:
-            kd = _keyed(o)
-            if kd is None or kd[1] != key:
-                return False
-            base = kd[0]
-            if not via_fk:
-                if not from_run_metadata(base):
-                    return False
-                continue
-            fks = _origins(ex, base)
-            if not fks:
-                return False
-            for f in fks:
-                if not (isinstance(f, ast.Call) and call_attr(f) == "as_run_space_fk" and isinstance(f.func, ast.Attribute)):
-                    return False
-                recv = _origins(ex, f.func.value)
-                if not recv or not all((_keyed(rv) or (None, None))[1] == "trace_context" and from_run_metadata(_keyed(rv)[0]) for rv in recv):
-                    return False
-        return True
+    cli_mod, orch_mod = repo.module(CLI), repo.module(ORCH)
+    # the object staged under "trace_context": its class is the one _run constructs it from
+    ctor_calls = [v for v in _origins(run_nf, tc)] if isinstance(tc, ast.Name) else []
+    tc_cls = None
+    if ctor_calls and all(isinstance(v, ast.Call) for v in ctor_calls):
+        found = [repo.resolve_name(cli_mod, v.func, v) for v in ctor_calls]
+        if all(r is not None and isinstance(r[1], ast.ClassDef) for r in found) and len({id(r[1]) for r in found}) == 1:
+            tc_cls = found[0]
 
+    def staged_tc(x: ast.AST) -> bool:  # in execute: the object read from run_metadata["trace_context"]
+        recv = _origins(ex, x) if isinstance(x, (ast.Name, ast.Attribute)) else []
+        return bool(recv) and all((_keyed(rv) or (None, None))[1] == "trace_context" and from_run_metadata(_keyed(rv)[0]) for rv in recv)
+
+    def fk_attrs(e: ast.AST) -> Optional[Set[str]]:
+        """Attributes of the staged trace context *e* evaluates to: read directly (`ctx.attr`) or out of the mapping a
+        function (method of its class / function taking it) builds from it; None when *e* is anything else."""
+        attrs: Set[str] = set()
+        outs = _origins(ex, e)
+        for o in outs:
+            if isinstance(o, ast.Attribute) and staged_tc(o.value):
+                attrs.add(o.attr)
+                continue
+            kd = _keyed(o)
+            fks = _origins(ex, kd[0]) if kd is not None else []
+            if not fks:
+                return None
+            for f in fks:
+                hit = _callee_on(repo, orch_mod, f, staged_tc, tc_cls) if isinstance(f, ast.Call) else None
+                rep = _object_reports(repo, hit[0], hit[1], hit[2], tc_cls) if hit is not None else None
+                vals = rep.get(kd[1]) if rep is not None else None
+                if not vals or not all(isinstance(v, ast.Attribute) and isinstance(v.value, ast.Name) and v.value.id == hit[2] for v in vals):
+                    return None
+                attrs |= {v.attr for v in vals}
+        return attrs if outs else None
+
+    def keyed_from(e: ast.AST, key: str) -> bool:
+        outs = _origins(ex, e)
+        return bool(outs) and all((_keyed(o) or (None, None))[1] == key and from_run_metadata(_keyed(o)[0]) for o in outs)
+
+    reached: Dict[str, Set[str]] = {}  # pipeline_start kwarg -> attributes of the staged trace context it carries
     for k, via_fk in (("run_space_launch_id", True), ("run_space_attempt", True), ("run_space_index", False), ("run_space_context", False)):
         vs = sent.get(k, [])
-        ok = bool(vs) and all(keyed_from(v, k, via_fk) for v in vs)
+        if via_fk:
+            got = [fk_attrs(v) for v in vs]
+            ok = bool(vs) and all(a for a in got)
+            if ok:
+                reached[k] = set().union(*got)
+        else:
+            ok = bool(vs) and all(keyed_from(v, k) for v in vs)
         ln = getattr(vs[0], "lineno", ex.lineno) if vs else ex.lineno
         R.check(ok, r_fr, ORCH, _orch.EXECUTE, f"on_pipeline_start(..., {k}=...)", f"pipeline_start does not receive {k} from the run metadata / launch FK under that key", ln)
     R.check(bool(sent), r_fr, ORCH, _orch.EXECUTE, "on_pipeline_start(..., **run_space_kwargs)", "run-space linkage is not forwarded to pipeline_start", sc.lineno)
-    # the FK object: set_run_space_fk stores launch_id / attempt in the attributes as_run_space_fk reports under those keys
-    setfk = repo.func(TCTX, "TraceContext.set_run_space_fk")
-    asfk = repo.func(TCTX, "TraceContext.as_run_space_fk")
-    reported: Dict[str, Optional[str]] = {}
-    for rv in ast.walk(asfk):
-        if isinstance(rv, ast.Return) and rv.value is not None:
-            for o in _origins(asfk, rv.value):
-                if isinstance(o, ast.Dict):
-                    for kk, vv in zip(o.keys, o.values):
-                        if isinstance(kk, ast.Constant):
-                            reported[kk.value] = dotted_name(vv)
-    for key, param in (("run_space_launch_id", "launch_id"), ("run_space_attempt", "attempt")):
-        attr = reported.get(key)
-        ok = attr is not None and any(isinstance(o, ast.Name) and o.id == param for o in _assigned(setfk, attr)) and len(_assigned(setfk, attr)) == 1
-        R.check(ok, r_fr, TCTX, "TraceContext.as_run_space_fk", f"{key} reports what set_run_space_fk({param}=...) stored", f"the launch FK reports under {key!r} something else than the {param} it was given", asfk.lineno)
+
+    # the FK object: what _run stores into those attributes (constructor arguments, attribute assignments, any function
+    # it hands the object to - method or not) is the id / attempt of the created launch, before the first run
+    stores: Dict[str, List[Tuple[ast.AST, ast.AST, Tuple[str, str, int]]]] = {}  # attr -> (value in _run's terms, statement of _run, where it is stored)
+    is_tc = lambda x: isinstance(tc, ast.Name) and isinstance(x, ast.Name) and x.id == tc.id
+    if tc_cls is not None:
+        for v in ctor_calls:
+            init = repo.method(tc_cls[0], tc_cls[1], "__init__")
+            if init is not None:
+                b = _bind_args(init[1], v, skip_first=True)
+                pos = init[1].args.posonlyargs + init[1].args.args
+                if b is not None and pos:
+                    for attr, vals in _object_stores(repo, init[0], init[1], pos[0].arg, tc_cls).items():
+                        stores.setdefault(attr, []).extend((_translate(x, b, "__init__"), v, (init[0].rel, qualname_of(init[1]), init[1].lineno)) for x in vals)
+            else:  # dataclass: fields in declaration order (bases first), given positionally or by name
+                fields = [st.target.id for _m, c in reversed(repo.mro(tc_cls[0], tc_cls[1])) for st in c.body if isinstance(st, ast.AnnAssign) and isinstance(st.target, ast.Name)]
+                for name, val in list(zip(fields, v.args)) + [(kw.arg, kw.value) for kw in v.keywords if kw.arg]:
+                    stores.setdefault(name, []).append((val, v, (CLI, "_run", v.lineno)))
+        for n in walk_no_nested(run_nf):
+            if isinstance(n, (ast.Assign, ast.AnnAssign, ast.AugAssign)) and getattr(n, "value", None) is not None:
+                for t in _flat_store_targets(n):
+                    if isinstance(t, ast.Attribute) and is_tc(t.value):
+                        vals = _value_for(n, f"{tc.id}.{t.attr}") if not isinstance(n, ast.AugAssign) else []
+                        stores.setdefault(t.attr, []).extend((x, n, (CLI, "_run", n.lineno)) for x in (vals or [n]))
+            elif isinstance(n, ast.Call) and not any(n is v for v in ctor_calls):
+                hit = _callee_on(repo, cli_mod, n, is_tc, tc_cls)
+                if hit is not None:
+                    for attr, vals in _object_stores(repo, hit[0], hit[1], hit[2], tc_cls).items():
+                        # a value the callee merely passes on from a parameter is the caller's doing
+                        stores.setdefault(attr, []).extend((_translate(x, hit[3], hit[1].name), n, (CLI, "_run", n.lineno) if isinstance(x, ast.Name) and x.id in hit[3] else (hit[0].rel, qualname_of(hit[1]), hit[1].lineno)) for x in vals)
+
+    def node_of(x: ast.AST) -> Optional[int]:
+        return next((n.id for n in g.nodes if n.kind == "stmt" and n.ast is not None and any(y is x for y in ast.walk(n.ast))), None)
+    ctor_ids = {i for i in (node_of(v) for v in ctor_calls) if i is not None}
+    for key, role in (("run_space_launch_id", "id"), ("run_space_attempt", "attempt")):
+        if key not in reached:
+            continue  # reported above: pipeline_start does not read it from the staged trace context at all
+        for attr in sorted(reached[key]):
+            got = stores.get(attr, [])
+            bad = next((s for s in got if not is_launch_attr(s[0], role)), None)
+            at = {i for i in (node_of(s[1]) for s in got) if i is not None}
+            ok = tc_cls is not None and bool(got) and bad is None and bool(ctor_ids)
+            if ok and not (at & ctor_ids):  # every way from the constructor to the first run passes a store
+                ok = bool(at) and not g.must_pass([t for c in ctor_ids for t, lab in g.succ[c] if lab == "n" and t not in at], list(heads), lambda n: n.id in at)
+            rel, fnname, ln = bad[2] if bad is not None else (CLI, "_run", md[0].lineno)
+            what = (f"the staged trace context gets `{norm(bad[0])[:60]}` as `{attr}`, which pipeline_start reports as {key}, instead of the {role} of the created launch" if bad is not None else
+                    f"launch foreign key not attached: nothing stores the {role} of the created launch into `{attr}` of the staged trace context (reported by pipeline_start as {key}) on every way to the first run")
+            R.check(ok, r_fr, rel, fnname, f"pipeline_start {key} = launch.{role} (through .{attr} of the staged trace context)", what, ln)
 
     # per-run leak through the orchestrator: caller-owned canonical spec must not be mutated (shared with C04-D3b)
     from . import c04
@@ -932,6 +1264,16 @@ def launch_id_rules(repo: Repo, R: Report) -> None:
                 return truthy
             if isinstance(e, ast.Call) and isinstance(e.func, ast.Name) and e.func.id == "bool" and len(e.args) == 1 and not e.keywords:
                 return a(e.args[0])
+            if isinstance(e, ast.UnaryOp) and isinstance(e.op, ast.Not):
+                inner = a(e.operand)
+                return None if inner is None else not inner
+            # `bool(x) is True` / `(not x) == False` ... (a lowered `match bool(x): case True:`): only for operands that are booleans
+            if (isinstance(e, ast.Compare) and len(e.ops) == 1 and isinstance(e.comparators[0], ast.Constant) and isinstance(e.comparators[0].value, bool)
+                    and isinstance(e.ops[0], (ast.Is, ast.IsNot, ast.Eq, ast.NotEq))
+                    and ((isinstance(e.left, ast.Call) and isinstance(e.left.func, ast.Name) and e.left.func.id == "bool") or (isinstance(e.left, ast.UnaryOp) and isinstance(e.left.op, ast.Not)))):
+                inner = a(e.left)
+                same = e.comparators[0].value == isinstance(e.ops[0], (ast.Is, ast.Eq))
+                return None if inner is None else (inner if same else not inner)
             if isinstance(e, ast.Compare) and len(e.ops) == 1 and isinstance(e.left, ast.Name) and e.left.id in names and _is_none(e.comparators[0]):
                 if isinstance(e.ops[0], ast.IsNot):
                     return truthy
@@ -1145,9 +1487,19 @@ def launch_id_rules(repo: Repo, R: Report) -> None:
     R.check(ok, r_l, CLI, "_run", "create_launch(provided_launch_id=args..., idempotency_key=args..., attempt=args...)", "the launch is not created from the launch id / idempotency key / attempt given on the command line", crt[0].lineno if crt else run_nf.lineno)
 
     # inputs id: spec id + every fingerprint (role, uri, content digest), order independent
-    rsm = nfunc(repo, IDENT, "RunSpaceIdentityService._rsm_v1_bytes")
-    rp = _params(rsm)
+    # (found by role among the functions RunSpaceIdentityService.compute reaches: the one that serialises the
+    # {spec_id, inputs} payload, and the one that reads a file in binary mode to digest it)
+    ident_mod = repo.module(IDENT)
+    ident_fns = _reachable_in_module(repo, IDENT, "RunSpaceIdentityService.compute")
+
+    def has_key(fn: ast.AST, key: str) -> bool:
+        return any(isinstance(d, ast.Dict) and any(isinstance(k, ast.Constant) and k.value == key for k in d.keys) for d in ast.walk(fn))
+    rsm_def = _by_role(ident_fns, lambda f: bool(_dumps_calls(f)) and has_key(f, "spec_id"), "run_space_identity: serialiser of the inputs payload (RSM)")
+    rsm = normalize(repo, ident_mod, rsm_def)
+    rsm_q = qualname_of(rsm_def)
+    rp = set(_params(rsm)[1:] if _is_method(rsm_def) else _params(rsm))
     item_ok = False
+    fps_param: Optional[str] = None
     for d in ast.walk(rsm):
         if isinstance(d, ast.Dict):
             kv = {k.value: v for k, v in zip(d.keys, d.values) if isinstance(k, ast.Constant)}
@@ -1157,10 +1509,25 @@ def launch_id_rules(repo: Repo, R: Report) -> None:
                 if item_ok:
                     var = next(iter(bases))
                     iters = [c.iter for c in ast.walk(rsm) if isinstance(c, ast.comprehension) and dotted_name(c.target) == var] + [f.iter for f in ast.walk(rsm) if isinstance(f, ast.For) and dotted_name(f.target) == var]
-                    item_ok = bool(iters) and all(len(rp) >= 3 and dotted_name(i) == rp[2] for i in iters)
-    spec_ok = any(isinstance(d, ast.Dict) and any(isinstance(k, ast.Constant) and k.value == "spec_id" and len(rp) >= 2 and dotted_name(v) == rp[1] for k, v in zip(d.keys, d.values)) for d in ast.walk(rsm))
+                    # every fingerprint handed in: the loop runs over a parameter (by whatever name / position)
+                    item_ok = bool(iters) and len({dotted_name(i) for i in iters}) == 1 and dotted_name(iters[0]) in rp
+                    fps_param = dotted_name(iters[0]) if item_ok else None
+    spec_ok = any(isinstance(d, ast.Dict) and any(isinstance(k, ast.Constant) and k.value == "spec_id" and dotted_name(v) in rp - {fps_param} for k, v in zip(d.keys, d.values)) for d in ast.walk(rsm))
     sorted_ok = any(call_attr(c) in ("sort", "sorted") for c in calls_in(rsm))
-    R.check(item_ok and spec_ok and sorted_ok, r_l, IDENT, "RunSpaceIdentityService._rsm_v1_bytes", "payload = {spec_id, sorted [(role, uri, sha256, size)]}", "inputs id does not cover the spec id and every referenced file's content digest (order-independently)", rsm.lineno)
-    sf = repo.func(IDENT, "RunSpaceIdentityService._sha256_file")
-    ok = any(call_attr(c) == "update" for c in calls_in(sf)) and any(isinstance(x, ast.Constant) and x.value == "rb" for x in ast.walk(sf)) and not any(isinstance(n, ast.Break) for n in ast.walk(sf))
-    R.check(ok, r_l, IDENT, "RunSpaceIdentityService._sha256_file", "digest of the whole file content", "file digest does not read the complete content", sf.lineno)
+    R.check(item_ok and spec_ok and sorted_ok, r_l, IDENT, rsm_q, "payload = {spec_id, sorted [(role, uri, sha256, size)]}", "inputs id does not cover the spec id and every referenced file's content digest (order-independently)", rsm.lineno)
+
+    def reads_file(fn: ast.AST) -> bool:
+        hashes = any((call_name(c) or "").startswith("hashlib.") for c in calls_in(fn))
+        return hashes and (any(isinstance(x, ast.Constant) and x.value == "rb" for x in ast.walk(fn)) or any(call_attr(c) == "read_bytes" for c in calls_in(fn)))
+    sf_def = _by_role(ident_fns, reads_file, "run_space_identity: file digest")
+    sf = normalize(repo, ident_mod, sf_def)
+    # the whole content: fed chunk by chunk without leaving the loop early, or read at once (read_bytes() / read() without
+    # a size / hashlib.file_digest)
+    fed = [c for c in calls_in(sf, include_nested=True) if call_attr(c) == "update" or (call_name(c) or "").startswith("hashlib.sha256")]
+    whole_reads = [c for c in calls_in(sf, include_nested=True) if call_attr(c) == "read_bytes" or (call_attr(c) == "read" and not c.args and not c.keywords)]
+    sized_reads = [c for c in calls_in(sf, include_nested=True) if call_attr(c) == "read" and (c.args or c.keywords)]
+    in_loop = lambda c: any(isinstance(a, (ast.For, ast.While)) for a in ancestors(c))
+    chunked = bool(sized_reads) and any(call_attr(c) == "update" and in_loop(c) for c in fed) and not any(isinstance(n, (ast.Break, ast.Return)) and in_loop(n) for n in ast.walk(sf))
+    at_once = bool(whole_reads) and not sized_reads and any(c.args for c in fed)
+    file_digest = any(call_name(c) == "hashlib.file_digest" for c in calls_in(sf))
+    R.check(chunked or at_once or file_digest, r_l, IDENT, qualname_of(sf_def), "digest of the whole file content", "file digest does not read the complete content", sf.lineno)
